@@ -2,7 +2,10 @@
 groups live in vf/bounded/cNN.py and are wired by vf/props/CNN.py."""
 
 E1 = {
-    "C01": (["contracts.c01"], ["BaseEliminationOrder.get_elimination_order", "VariableElimination._get_elimination_order"]),
+    "C01": (["contracts.c01"], ["BaseEliminationOrder.get_elimination_order", "VariableElimination._get_elimination_order",
+                                 "Inference._prune_bayesian_model"]),
+    "C02": (["contracts.c01"], ["Inference._prune_bayesian_model"]),
+    "C03": (["contracts.c01"], ["Inference._prune_bayesian_model"]),
     "C08": (["contracts.c08"], ["DAG._get_ancestors_of", "DAG.active_trail_nodes", "DAG.is_dconnected", "DAG.get_markov_blanket",
                                  "BayesianNetwork.get_markov_blanket", "DAG.moralize", "DAG.get_ancestral_graph", "DAG.local_independencies", "DAG.minimal_dseparator"]),
     "C09": (["contracts.c09"], ["XMLBIFReader.get_edges", "BIFReader.get_edges", "NETReader.get_edges"]),
